@@ -10,7 +10,7 @@ from vf.spec import cdb as S
 ID = "C03"
 OPT_QUICK_ALL = True      # every partition also in a child interpreter started with -O
 LEVEL = "exploration"
-TECHNIQUE = "deviation-bounded exhaustive enumeration of constructor arguments x block sizes x ATA transfer rules; buffer lengths recomputed from the CDB by the independent spec decoder and each command handed to both stand-in transports"
+TECHNIQUE = "deviation-bounded exhaustive enumeration of constructor arguments (those of the released signatures, plus any parameter the class has gained since, over 6 values) x block sizes x ATA transfer rules; buffer lengths recomputed from the CDB by the independent spec decoder and each command handed to both stand-in transports"
 RULE = ("42 classes x offering tables x argument tuples with at most k deviations (k=1 quick, 2 thorough) x block sizes {1,512,520,4096} for "
         "block commands (products above 2^22 bytes skipped) ; ATA PASS-THROUGH 12/16: full product t_length(4) x byte_block x t_type x t_dir x "
         "data given/omitted x blocksize {0,512,4096} x extra_tl {None,3} x count/features {0,1,2,max8,(max16)}, and PROTOCOL 0..15 x t_length x byte_block x t_type x t_dir x data given/omitted x extra_tl ; MODE SELECT / PR OUT / EXTENDED COPY "
@@ -190,7 +190,48 @@ def build(name, st, key, point, bs, variant):
         return e, kw
 
 
+NEW_PARAM_VALUES = (0, 1, 12, 255, 512, 4096)
+
+
+def new_parameters(name):
+    """constructor parameters the class has NOW that the pinned release did not have (an API extension): they are exercised as well"""
+    import inspect
+    from vf.spec import signatures as SIG
+    cls = CS.get_class(name)
+    cur = [p for p, v in inspect.signature(cls.__init__).parameters.items()
+           if p not in ("self", "opcode") and v.kind not in (v.VAR_KEYWORD, v.VAR_POSITIONAL)]
+    rel = {a for a, _ in SIG.COMMANDS.get(name, [])}
+    return [p for p in cur if p not in rel]
+
+
+def run_new_param(name, st, key, param, value):
+    """baseline arguments plus one parameter that did not exist in the release: whatever it means, the command it yields satisfies the
+    buffer / CDB relation (a refusal is fine)"""
+    ensure_rigs()
+    point = CS.baseline(name)
+    bs = 512 if name in BLOCK else None
+    cls = CS.get_class(name)
+    op = CS.get_opcode(st, key)
+    kw = CS.build_kwargs(name, point, blocksize=bs or 1)
+    if name in BLOCK:
+        kw["blocksize"] = bs
+        if "data" in kw:
+            kw["data"] = bytearray(b"\x5a" * (bs * point.get("tl", 0) if name.startswith("Write1") else bs))
+    kw[param] = value
+    where = "%s(baseline, %s=%r) via %s.%s [%s is not a parameter of the released constructor]" % (name, param, value, st, key, param)
+    try:
+        cmd = cls(op, **kw)
+    except Exception:   # noqa: BLE001
+        return []
+    v, li, lo = judge(name, cmd, {k: x for k, x in kw.items() if k != param}, where)
+    if li is not None:
+        v += transports(cmd, where, name)
+    return [("new_parameter/" + k, w) for k, w in v]
+
+
 def run_case(case, obs=None):
+    if case[0] == "new_param":
+        return run_new_param(*case[1:])
     ensure_rigs()
     name, st, key, point, bs, variant = case
     where = "%s(%r, blocksize=%r, variant=%r) via %s.%s" % (name, point, bs, variant, st, key)
@@ -412,6 +453,9 @@ def run_partition(part, tier, seed):
             acc.violation(kk, w, case)
         acc.outcome((name, tuple(obs), tuple(x for x, _ in v)))
 
+    for param in new_parameters(name):
+        for value in NEW_PARAM_VALUES:
+            do(["new_param", name, st, key, param, value], True)
     if name in S.ATA_LBA_BYTES:
         mx = 0xFFFF if name.endswith("16") else 0xFF
         for bb, tt, td, give, bsz, xtl, cnt, fet in itertools.product((0, 1), (0, 1), (0, 1), (False, True), (0, 512, 4096), (None, 3),
